@@ -73,7 +73,8 @@ def stochasticRound (x precision u : Rat) : Rat :=
 
 /-- body of `stochastic_round_po2(x)` after `x_log2 = round(log2(y + eps))` has been computed
     (`e0`): bracket `[2^left, 2^right]`, draw `val = u*(maxval-minval)+minval`
-    (what `tf.random.uniform(minval=, maxval=)` returns for the unit draw `u`), compare. -/
+    (what `tf.random.uniform(minval=, maxval=)` returns for the unit draw `u`), compare:
+    `tf.where(y <= val, left_val, right_val)` (repair 2fe48c1; before it the test was `y < val`). -/
 def stochasticRoundPo2Core (y : Rat) (e0 : Int) (u : Rat) : Int :=
   let po2 := pow2 e0
   let left := if y < po2 then e0 - 1 else e0
@@ -81,7 +82,7 @@ def stochasticRoundPo2Core (y : Rat) (e0 : Int) (u : Rat) : Int :=
   let minval := pow2 left
   let maxval := pow2 right
   let val := u * (maxval - minval) + minval
-  if y < val then left else right
+  if y ≤ val then left else right
 
 /-- `round(log2 y)` in exact arithmetic (never a tie for rational `y`):
     `e` with `2^(2e-1) ≤ y² < 2^(2e+1)`. -/
@@ -101,12 +102,11 @@ def roundThrough (phase stoch : Bool) (precision x u : Rat) : Rat :=
 
 /-! ## precision passed to `_round_through` by each class
 
-`quantized_bits` and `quantized_linear` pass `precision=1.0`.  `quantized_relu`, `quantized_tanh`
-and `quantized_sigmoid` do not pass it and get the default `0.5` — finding C08-halfstep.
-**Switching the model to the repaired behaviour = change `actPrecision` to `1`**
-(and drop `C08_halfstep_counterexample_impl` in Props/C08.lean, see notes/C08.md). -/
+Every class passes `precision=1.0`: `quantized_bits` / `quantized_linear` always did;
+`quantized_relu`, `quantized_tanh`, `quantized_sigmoid` since repair e93b27f (before it they got
+the default `0.5` and emitted half steps — see `C08_precision_half_not_adjacent`). -/
 def bitsPrecision : Rat := 1
-def actPrecision : Rat := 1 / 2
+def actPrecision : Rat := 1
 
 /-! ## fixed-point classes -/
 
@@ -258,12 +258,10 @@ def binaryQ (use01 stoch phase : Bool) (alpha x m u1 u2 : Rat) : Rat :=
   let k := if use01 then (k + 1) / 2 else k
   alpha * k
 
-/-- the shape `tf.ones_like(tf.shape(x))` (= `[rank]`) that `binary(use_stochastic_rounding=True)`
-    multiplies with at phase 0 broadcasts against `x` without changing its shape iff … -/
-def binaryInferShapeOk (shape : List Nat) : Bool :=
-  match shape.getLast? with
-  | none => false
-  | some last => shape.length == 1 || last == shape.length
+/-- phase 0 of `binary(use_stochastic_rounding=True)` multiplies by `tf.ones_like(x)` (repair
+    65bdf0f; before it: `tf.ones_like(tf.shape(x))`, shape `[rank]`, which broadcast only for
+    rank 1 or last dim = rank): every input shape keeps its shape. -/
+def binaryInferShapeOk (_shape : List Nat) : Bool := true
 
 /-- one unrolled iteration of `ternary.__call__` (alpha "auto*"): the code `q ∈ {-1,0,1}` given the
     current `scale`: `v = scale*_round_through(x/scale, stoch, 1/3); q = (|v| ≥ scale/2)*sign(x)` -/
